@@ -23,7 +23,8 @@ import (
 	"verifharness/mon"
 )
 
-const verifDir = "/verif"
+// verifDir is where this copy of the machinery lives (vcheck passes its own directory).
+var verifDir = envOr("VERIF_DIR", "/verif")
 
 // repoDir is the tree the library is built from: /repo, or $VERIF_REPO for background sweeps
 // that must not be disturbed by edits to /repo (the registered commands never set it).
@@ -52,7 +53,7 @@ func setupRepoDir() {
 }
 
 var (
-	harnessDir = filepath.Join(verifDir, "harness")
+	harnessDir = filepath.Join(envOr("VERIF_DIR", "/verif"), "harness")
 	scratch    string
 	startTime  = time.Now() // wall_s only; never read by an oracle
 )
@@ -594,7 +595,7 @@ func writeReplay(rc *runCfg, n int, v taggedViolation) string {
 	rep := map[string]any{
 		"property": rc.prop, "seed": rc.seed, "tier": rc.tier, "config": v.Config, "mode": v.Mode,
 		"case": v.Case, "kind": v.Kind, "site": v.Site, "class": v.Class, "detail": v.Detail,
-		"replay_cmd": fmt.Sprintf("/verif/vcheck %s --replay %s", rc.prop, p),
+		"replay_cmd": fmt.Sprintf("%s/vcheck %s --replay %s", verifDir, rc.prop, p),
 	}
 	b, _ := json.MarshalIndent(rep, "", " ")
 	os.WriteFile(p, b, 0o644)
